@@ -121,7 +121,54 @@ fn parse_obs(b: &[u8]) -> String {
         Ok(m) => {
             let t = m.get_type();
             let tid: u128 = m.transaction_id().into();
-            let attrs: Vec<RawAttribute> = m.iter_attributes().collect();
+            let mut attrs: Vec<RawAttribute> = m.iter_attributes().collect();
+            // every way of driving the iterator must expose the same sequence: positional access (`nth`,
+            // `skip`), `last` and `count` are iteration too (an overridden adaptor method is a separate code
+            // path).  If one of them shows something else, that is what gets reported.
+            {
+                let mut via_nth: Vec<RawAttribute> = vec![];
+                for k in 0..=attrs.len() + 1 {
+                    match m.iter_attributes().nth(k) {
+                        Some(a) => via_nth.push(a),
+                        None => break,
+                    }
+                }
+                let mut via_skip: Vec<RawAttribute> = vec![];
+                for k in 0..=attrs.len() + 1 {
+                    match m.iter_attributes().skip(k).next() {
+                        Some(a) => via_skip.push(a),
+                        None => break,
+                    }
+                }
+                let same = |x: &Vec<RawAttribute>, y: &Vec<RawAttribute>| {
+                    x.len() == y.len() && x.iter().zip(y.iter()).all(|(a, b)| a.get_type() == b.get_type() && *a.value == *b.value)
+                };
+                let mut stepped: Vec<RawAttribute> = vec![];
+                {
+                    // next() interleaved with nth(0) and a by_ref().take(1)
+                    let mut it = m.iter_attributes();
+                    let mut i = 0;
+                    loop {
+                        let a = match i % 3 { 0 => it.next(), 1 => it.nth(0), _ => it.by_ref().take(1).next() };
+                        i += 1;
+                        match a { Some(a) => stepped.push(a), None => break }
+                    }
+                }
+                if !same(&via_nth, &attrs) {
+                    attrs = via_nth;
+                } else if !same(&via_skip, &attrs) {
+                    attrs = via_skip;
+                } else if !same(&stepped, &attrs) {
+                    attrs = stepped;
+                } else if m.iter_attributes().count() != attrs.len() {
+                    attrs.truncate(m.iter_attributes().count().min(attrs.len().saturating_sub(1)));
+                } else if let Some(l) = m.iter_attributes().last() {
+                    let ok = attrs.last().map(|a| a.get_type() == l.get_type() && *a.value == *l.value).unwrap_or(false);
+                    if !ok {
+                        attrs.push(l);
+                    }
+                }
+            }
             // lookups: every exposed type in order of first appearance, the three ending types and two absent ones
             let mut types: Vec<u16> = vec![];
             for a in &attrs {
